@@ -465,7 +465,7 @@ func runC14(seed int64, n int, dir string, args []string) {
 				env = append(env, e)
 			}
 		}
-		cmd.Env = append(env, "C14_CHILD=1")
+		cmd.Env = append(env, "C14_CHILD=1", "C14_SIGS="+filepath.Join(dir, "signatures.json"))
 		if jb.corpus {
 			cmd.Env = append(cmd.Env, "C14_CORPUS=1")
 		}
@@ -543,6 +543,42 @@ func runC14(seed int64, n int, dir string, args []string) {
 	}
 }
 
+func (c *ctx) probeSignatures(names []string, withSig map[string]bool) {
+	probe := map[byte]string{'N': "3", 'F': "1.5", 'S': "'abc'", 'D': "'2012-02-03 09:18:15'"}
+	var cands []string
+	cands = append(cands, "")
+	for _, a := range "NFSD" {
+		cands = append(cands, string(a))
+		for _, b := range "NFSD" {
+			cands = append(cands, string(a)+string(b))
+			for _, d := range "NFSD" {
+				cands = append(cands, string(a)+string(b)+string(d))
+			}
+		}
+	}
+	cands = append(cands, "FNSSS", "SNSS", "SNSSS", "SSSS", "SNNN", "DNNN")
+	for _, fn := range names {
+		if nondeterministic[fn] {
+			continue
+		}
+		found := 0
+		for _, cand := range cands {
+			args := make([]string, len(cand))
+			for i := range cand {
+				args[i] = probe[cand[i]]
+			}
+			if _, err := c.pr.Query("SELECT " + fn + "(" + strings.Join(args, ", ") + ") FROM one"); err == nil {
+				c.sigs = append(c.sigs, sig{fn, cand})
+				withSig[fn] = true
+				found++
+				if found >= 6 {
+					break
+				}
+			}
+		}
+	}
+}
+
 func runChild(seed int64, n int, dir string, withCorpus bool) {
 	g := hc.NewGen(seed)
 	o := hc.NewOut(dir)
@@ -607,44 +643,37 @@ func runChild(seed int64, n int, dir string, withCorpus bool) {
 		panic(err)
 	}
 
-	// signatures of the built-in scalar functions, by probing on a one-row table
+	// signatures of the built-in scalar functions, by probing on a one-row table (done by the first
+	// workload process of a run; the others read its list)
 	names := builtinNames(repoSrc)
 	if len(names) < 50 {
 		panic(fmt.Sprintf("only %d function names found in the Functions map", len(names)))
 	}
-	probe := map[byte]string{'N': "3", 'F': "1.5", 'S': "'abc'", 'D': "'2012-02-03 09:18:15'"}
-	var cands []string
-	cands = append(cands, "")
-	for _, a := range "NFSD" {
-		cands = append(cands, string(a))
-		for _, b := range "NFSD" {
-			cands = append(cands, string(a)+string(b))
-			for _, d := range "NFSD" {
-				cands = append(cands, string(a)+string(b)+string(d))
+	withSig := map[string]bool{}
+	sigFile := os.Getenv("C14_SIGS")
+	if b, err := os.ReadFile(sigFile); sigFile != "" && err == nil {
+		var list [][2]string
+		if json.Unmarshal(b, &list) == nil {
+			for _, e := range list {
+				c.sigs = append(c.sigs, sig{e[0], e[1]})
+				withSig[e[0]] = true
 			}
 		}
 	}
-	cands = append(cands, "FNSSS", "SNSS", "SNSSS", "SSSS", "SNNN", "DNNN")
-	withSig := map[string]bool{}
+	if len(c.sigs) == 0 {
+		c.probeSignatures(names, withSig)
+		if sigFile != "" {
+			var list [][2]string
+			for _, sg := range c.sigs {
+				list = append(list, [2]string{sg.fn, sg.args})
+			}
+			b, _ := json.Marshal(list)
+			_ = os.WriteFile(sigFile, b, 0o644)
+		}
+	}
 	for _, fn := range names {
 		if nondeterministic[fn] {
 			o.Count("skipped_nondeterministic")
-			continue
-		}
-		found := 0
-		for _, cand := range cands {
-			args := make([]string, len(cand))
-			for i := range cand {
-				args[i] = probe[cand[i]]
-			}
-			if _, err := pr.Query("SELECT " + fn + "(" + strings.Join(args, ", ") + ") FROM one"); err == nil {
-				c.sigs = append(c.sigs, sig{fn, cand})
-				withSig[fn] = true
-				found++
-				if found >= 6 {
-					break
-				}
-			}
 		}
 	}
 	o.Stats["functions_in_map"] = len(names)
